@@ -8,6 +8,16 @@ Every case builds a small generated tree sequence (dyadic coordinates/times), a 
   (3) window-refinement laws,
   (4) threaded executions (num_threads fan-out, concurrent Python threads, ThreadSanitizer build).
 
+Mechanism keys of the genuine defects this check found on the pinned tree (fixes/ has one patch each):
+  afs/branch/stale-last-update                         D16  branch AFS flushes a node that regains a parent over
+                                                            its whole parentless stretch (also refinement/allele_frequency_spectrum)
+  genetic_relatedness/proportion-denominator-reshape   DNEW genetic_relatedness(proportion=True) with a single
+                                                            index tuple and > 1 window (or node mode) raises ValueError
+  genetic_relatedness_vector/span-normalise-ignored    DNEW span_normalise has no effect (also refinement/genetic_relatedness_vector)
+  pair_coalescence_counts/missing-span-normalisation   DNEW a window boundary inside an edgeless tree makes the
+                                                            non-missing span too small (sign error)
+  LdCalculator/r2/stale-tracked-count-after-seek       D13  (owned by C06) seen through LdCalculator.r2
+
 EITHER zones (what the documentation leaves open; the oracle accepts both):
   E1  "empty" windows (docs/stats.md: do not rely on 0 versus nan): when a statistic's summary function is
       nan for every argument (diversity of a singleton, Y1 of < 3 samples, f2/f3 with a singleton first
